@@ -72,7 +72,66 @@ ERR_NAMES = ("e", "err", "2")
 ALL_NAMES = ("a", "all", "&")
 CAPS = ("bare", "hidden", "uncap", "stdout", "object")
 STATES = ("missing", "existing", "nodir", "readonly")
-CMD = {"ext": "vtag", "thr": "atag", "unt": "utag"}
+CMD = {"ext": "vtag", "thr": "atag", "unt": "utag", "cb": "cb", "ub": "ub", "sl": "sl",
+       "xand": "xand", "xseq": "xseq", "xpipe": "xpipe", "xali": "xali", "xnest": "xnest"}
+# Stage kinds whose *body* produces the output (strengthening round 2).  ExecAliases (string aliases that need the
+# execer): the stage's stdout/stderr is whatever the commands inside write.
+EXEC_ALIASES = {
+    "xand": 'vtag @($arg0+"a") && vtag @($arg0+"b")',
+    "xseq": 'vtag @($arg0+"a"); vtag @($arg0+"b")',
+    "xpipe": 'vtag @($arg0+"a") | vtag @($arg0+"b") in',
+    "xali": 'atag @($arg0+"a") && vtag @($arg0+"b")',          # an alias that calls another alias, then a program
+    "xnest": 'cbi @($arg0+"n") cp',                              # an alias that calls an alias that runs a program
+}
+X_KINDS = frozenset(EXEC_ALIASES)
+# `cb TAG EMITTERS [in]` (threadable) / `ub ...` (@unthreadable): a callable alias written in xonsh whose body emits
+# O<TAG><letter> on its stdout and E<TAG><letter> on its stderr once per letter of EMITTERS:
+#   w  stdout.write / stderr.write (the stream arguments)      p  print() / print(file=sys.stderr)
+#   c  a bare subprocess command `vtag ...`                    h  `![vtag ...]`
+#   x  execx("vtag ...")                                       n  another callable alias (`atag ...`)
+#   m  another alias whose body runs a program (`cbi ... c`, emits O<TAG>mc / E<TAG>mc)
+# `sl TAG [in]`: threaded alias that writes O<TAG>, sleeps SLOW_S, then writes E<TAG> (output after the downstream
+# stage may have finished); it survives a closed stdout pipe.
+EMITTERS = "wpchxnm"
+PY_CLASSES = frozenset("wpn")       # delivered through the alias' Python-level streams
+BODY_KINDS = ("cb", "ub", "sl") + tuple(sorted(X_KINDS))
+UNTHREADABLE_KINDS = ("unt", "ub")
+DECOS = ("@thread", "@unthread", "@error_ignore")
+SLOW_S = 0.2
+BODY_SRC = r'''
+import sys as _sys
+def _c07_body(args, stdin=None, stdout=None, stderr=None):
+    t = args[0]
+    em = args[1] if len(args) > 1 else "w"
+    if len(args) > 2 and stdin is not None:
+        for line in stdin:
+            if not line.endswith("\n"):
+                line += "\n"
+            stdout.write("I%s:%s" % (t, line))
+        stdout.flush()
+    for L in em:
+        if L == "w":
+            stdout.write("O%sw\n" % t)
+            stdout.flush()
+            stderr.write("E%sw\n" % t)
+            stderr.flush()
+        elif L == "p":
+            print("O%sp" % t, flush=True)
+            print("E%sp" % t, file=_sys.stderr, flush=True)
+        elif L == "c":
+            vtag @(t + "c")
+        elif L == "h":
+            ![vtag @(t + "h")]
+        elif L == "x":
+            execx("vtag %sx" % t)
+        elif L == "n":
+            atag @(t + "n")
+        elif L == "m":
+            cbi @(t + "m") c
+    return 0
+def _c07_ubody(args, stdin=None, stdout=None, stderr=None):
+    return _c07_body(args, stdin, stdout, stderr)
+'''
 
 
 def spelling_table():
@@ -154,12 +213,29 @@ def iter_redirs(case):
             k += 1
 
 
+def _drains(st):
+    """Does the stage consume its stdin (to EOF) when it is given one?"""
+    return st["kind"] not in X_KINDS and not st.get("noread")
+
+
+def stage_words(st, i, reads):
+    kind = st["kind"]
+    words = [CMD[kind], str(i)]
+    if kind in ("cb", "ub"):
+        words.append(st.get("em") or "w")
+    if reads and _drains(st):
+        words.append("in")
+    return words
+
+
 def render(case):
     parts = []
     k = 0
     for i, st in enumerate(case["stages"]):
         reads = i > 0 or any(TABLE.get(r["op"]) == ("in",) for r in st.get("redirs", []))
-        words = [CMD[st["kind"]], str(i)] + (["in"] if reads else [])
+        words = stage_words(st, i, reads)
+        # decorations: `$VAR=value` prefixes come first, then a decorator alias, then the command (with its redirects)
+        deco = ["$%s=%s" % (nm, val) for nm, val in st.get("envs", [])] + ([st["deco"]] if st.get("deco") else [])
         pre, post = [], []
         for r in st.get("redirs", []):
             if r.get("raw") is not None:
@@ -170,7 +246,7 @@ def render(case):
                 txt = r["op"] + r.get("sp", " ") + target_text(r["tgt"], k)
             (pre if r.get("prefix") else post).append(txt)
             k += 1
-        parts.append(" ".join(pre + words + post))
+        parts.append(" ".join(deco + pre + words + post))
     line = " | ".join(parts)
     cap = case["cap"]
     if cap == "bare":
@@ -200,6 +276,72 @@ class Undefined(Exception):
     """The documentation gives the combination no meaning (circular merges); not generated."""
 
 
+def _kinfo(st, ts):
+    """-> (is a callable alias, runs threaded).  `@thread` / `@unthread` override the alias' own marking and
+    $THREAD_SUBPROCS for one invocation (docs/callable_aliases.rst "Threading")."""
+    if st["kind"] == "ext":
+        return False, None
+    deco = st.get("deco")
+    if deco == "@thread":
+        return True, True
+    if deco == "@unthread":
+        return True, False
+    return True, bool(ts) and st["kind"] not in UNTHREADABLE_KINDS
+
+
+def _unthreaded_last(st, ts):
+    """shape of C07-F3: the stage is not run through a thread (alias: see _kinfo; program: @unthread, or
+    $THREAD_SUBPROCS off without @thread)"""
+    alias, threaded = _kinfo(st, ts)
+    if alias:
+        return not threaded
+    return st.get("deco") == "@unthread" or (not ts and st.get("deco") != "@thread")
+
+
+def stage_emits(st, i, in_lines):
+    """What stage i writes: [(stream "o"/"e", line, emitter class)].  Classes: proc = an external program's own fds,
+    w/p/n = Python-level streams of an alias, c/h/x/m = commands run inside an alias body, cn = the stderr of a
+    non-last command of a pipeline inside an alias body."""
+    kind, t = st["kind"], str(i)
+    if kind == "ext":
+        return [("o", "I%s:%s" % (t, ln), "proc") for ln in in_lines] + [("o", "O" + t, "proc"), ("e", "E" + t, "proc")]
+    out = [("o", "I%s:%s" % (t, ln), "w") for ln in in_lines]
+    if kind in ("thr", "unt", "sl"):
+        return out + [("o", "O" + t, "w"), ("e", "E" + t, "w")]
+    if kind in ("cb", "ub"):
+        for L in st.get("em") or "w":
+            tag = t + ("mc" if L == "m" else L)
+            out += [("o", "O" + tag, L), ("e", "E" + tag, L)]
+        return out
+    if kind in ("xand", "xseq"):
+        return [("o", "O%sa" % t, "c"), ("e", "E%sa" % t, "c"), ("o", "O%sb" % t, "c"), ("e", "E%sb" % t, "c")]
+    if kind == "xpipe":
+        return [("o", "I%sb:O%sa" % (t, t), "c"), ("e", "E%sa" % t, "cn"), ("o", "O%sb" % t, "c"), ("e", "E%sb" % t, "c")]
+    if kind == "xali":
+        return [("o", "O%sa" % t, "n"), ("e", "E%sa" % t, "n"), ("o", "O%sb" % t, "c"), ("e", "E%sb" % t, "c")]
+    if kind == "xnest":
+        return [("o", "O%snc" % t, "c"), ("e", "E%snc" % t, "c"), ("o", "O%snp" % t, "p"), ("e", "E%snp" % t, "p")]
+    raise common.HarnessError("bad stage kind %r" % kind)
+
+
+_MERGE_SPELLINGS = sorted((sp for sp, sem in TABLE.items() if sem in NO_TARGET), key=lambda x: (-len(x), x))
+
+
+def glued(r):
+    """A file redirect written without a blank whose operator + the beginning of the target name spell a merge /
+    pipe operator (`2>out.txt`, `a>path`, `1>err.log`): -> (that operator, rest of the name), else None."""
+    if r.get("raw") is not None or r.get("tgt") is None or r.get("sp") != "" or r["tgt"].get("form", "plain") != "plain":
+        return None
+    op = r["op"]
+    if not op.endswith(">") or op.endswith(">>") or op == ">":
+        return None
+    txt = op + r["tgt"]["name"]
+    for sp in _MERGE_SPELLINGS:
+        if len(sp) > len(op) and txt.startswith(sp):
+            return sp, txt[len(sp):]
+    return None
+
+
 def model(case, posix_order=False, explicit_wins=False, nonlast_err_captured=False, o2e_literal=False, defects=frozenset()):
     """-> {"error": True} or {"places": {place: [lines]}, "files": {name: lines-or-None}, "append": {name: ninit}}.
 
@@ -213,16 +355,27 @@ def model(case, posix_order=False, explicit_wins=False, nonlast_err_captured=Fal
       nonlast_err_captured in !( ) the unredirected stderr of non-last stages is part of .err instead of the terminal
       o2e_literal          "send stdout to stderr" read literally: o>e sends stdout to the *shell's* stderr place even when
                            the command's own stderr is redirected to a file on the same line
-    """
+
+    Stage decorations (`$VAR=value` prefixes, `@error_ignore`) have no influence on routing; `@thread` / `@unthread`
+    only decide whether an alias runs threaded (_kinfo).  Everything an alias body emits (stage_emits) belongs to the
+    stage's stdout / stderr and follows the stage's routing (docs/callable_aliases.rst "Capturing and Stream
+    Redirection": print(), the stream arguments and subprocess commands are all captured / redirected)."""
     stages = case["stages"]
     n = len(stages)
     cap = case["cap"]
+    ts = bool(case.get("ts", True))
     files = {}
     for i, k, r in iter_redirs(case):
         if r.get("raw") is not None:
             return {"error": True, "why": "malformed operator"}
         if r.get("tgt") is not None:
             files[r["tgt"]["name"]] = init_lines(k, r["tgt"])
+            g = glued(r)
+            if g is not None and g[1] == "":
+                raise Undefined()       # `e>out`: the text *is* the merge operator, not `e>` + file "out"
+    if "C07-F11" in defects:
+        # the tokenizer reads `2>out.txt` as the merge operator `2>out` followed by the argument `.txt`
+        stages = [dict(st, redirs=[({"op": glued(r)[0]} if glued(r) else r) for r in st.get("redirs", [])]) for st in stages]
     if "C07-F8" in defects:
         return {"error": True, "why": "C07-F8", "exc_ok": ("TypeError", r"unhashable type: 'list'")}
     sinks = {}
@@ -276,10 +429,9 @@ def model(case, posix_order=False, explicit_wins=False, nonlast_err_captured=Fal
                 if i == n - 1:
                     error = error or "e>p without a following pipe"
                 put("err", ("pipe", i), pos)
-        if st["kind"] == "unt" and n > 1:
-            error = error or "unthreadable alias in a pipeline"
-        if st["kind"] == "thr" and n > 1 and not case.get("ts", True):
-            error = error or "alias in a pipeline with $THREAD_SUBPROCS off"
+        alias, threaded = _kinfo(st, ts)
+        if alias and not threaded and n > 1:
+            error = error or "alias that does not run threaded (@unthreadable / @unthread / $THREAD_SUBPROCS off) in a pipeline"
         if i < n - 1:
             if slot["out"] is None:
                 slot["out"] = ("pipe", i)
@@ -318,22 +470,28 @@ def model(case, posix_order=False, explicit_wins=False, nonlast_err_captured=Fal
             return ("cap", "err")
         return ("term", 2)
 
+    optional = []
     for i, (slot, order) in enumerate(plans):
         out, err = slot["out"], slot["err"]
         if out == ("=err",) and (err == ("=out",) or (err is not None and err[0] == "pipe")):
             raise Undefined()       # circular merge / o>e together with e>p: no documented meaning
         last = i == n - 1
-        kind = stages[i]["kind"]
+        st = stages[i]
+        kind = st["kind"]
+        alias, threaded = _kinfo(st, ts)
+        # xonsh captures the commands run inside an alias body only when the stage is not the last one, or the whole
+        # line is captured, or the stage's stdout is redirected (specs.py cmds_to_specs "boundary conditions")
+        inner_captured = (not last) or cap in ("stdout", "object") or slot["out"] is not None
         if "C07-F2" in defects and last and cap == "stdout" and out == ("=err",) and err is None:
             out = None              # $( ... o>e): stdout falls back to the inherited fd 1
-        if "C07-F1" in defects and last and kind == "thr" and out is None and err is None and (
+        if "C07-F1" in defects and last and alias and threaded and out is None and err is None and (
                 cap == "uncap" or (cap == "stdout" and "C07-F2" in defects)):
             err = ("=out",)         # ProcProxyThread treats "neither redirected" as "stderr == stdout"
             if cap == "stdout":
                 out = ("term", 1)
         if "C07-F2" in defects and last and cap == "stdout" and slot["out"] == ("=err",) and out is None:
             out = ("term", 1)
-        if "C07-F4" in defects and kind == "unt" and err == ("=out",) and cap in ("bare", "hidden", "uncap"):
+        if "C07-F4" in defects and alias and not threaded and err == ("=out",) and cap in ("bare", "hidden", "uncap"):
             err = None              # ProcProxy ignores the merge flag
         if out is None:
             out = default_out(i)
@@ -358,21 +516,54 @@ def model(case, posix_order=False, explicit_wins=False, nonlast_err_captured=Fal
             in_lines = sinks.get(inp, [])
         else:
             in_lines = list(files[inp[1]] or [])
-        out_lines = ["I%d:%s" % (i, ln) for ln in in_lines] + ["O%d" % i]
-        err_lines = ["E%d" % i]
-        for sink, lines in ((out, out_lines), (err, err_lines)):
+        if not _drains(st):
+            in_lines = []           # an ExecAlias / a stage that ignores its stdin
+        # a stage whose reader does not consume the pipe can be cut short by SIGPIPE / EPIPE: whether its lines arrive
+        # is scheduling (`sl` is written to survive that)
+        fragile = (not last) and not _drains(stages[i + 1]) and kind != "sl"
+        for stream, line, cls in stage_emits(st, i, in_lines):
+            sink = out if stream == "o" else err
+            direct = ("term", 1 if stream == "o" else 2)
+            if cls not in ("proc", "w"):
+                if alias and not threaded:
+                    if "C07-F12" in defects:
+                        sink = direct       # ProcProxy does not redirect sys.stdout / sys.stderr for the alias body
+                elif cls == "cn":
+                    if "C07-F13" in defects:
+                        sink = direct       # stderr of a non-last command of a pipeline inside the body is never captured
+                elif cls not in PY_CLASSES and not inner_captured and "C07-F9" in defects:
+                    sink = direct           # commands inside the body are not captured: they write to the shell's fds
+            if ("C07-F10" in defects and kind == "sl" and stream == "e" and line == "E%d" % i and not last
+                    and not _drains(stages[i + 1]) and sink[0] == "file"):
+                # CommandPipeline._close_prev_procs closes the stage's stderr file before it joins the alias thread:
+                # what the alias writes after the downstream stages have finished is lost
+                if sink[1] not in append_n:
+                    init = files[sink[1]] or []
+                    append_n[sink[1]] = len(init) if sink[2] == "a" else 0
+                    result_files[sink[1]] = list(init) if sink[2] == "a" else []
+                continue
+            if fragile:
+                optional.append(line)
             if sink[0] == "file":
                 name, mode = sink[1], sink[2]
                 if name not in append_n:
                     init = files[name] or []
                     append_n[name] = len(init) if mode == "a" else 0
                     result_files[name] = list(init) if mode == "a" else []
-                result_files[name] = result_files[name] + lines
+                result_files[name] = result_files[name] + [line]
             else:
-                sinks.setdefault(sink, []).extend(lines)
+                sinks.setdefault(sink, []).append(line)
+        # a redirect target is created / truncated even when nothing is written to it
+        for sink in (out, err):
+            if sink[0] == "file" and sink[1] not in append_n:
+                init = files[sink[1]] or []
+                append_n[sink[1]] = len(init) if sink[2] == "a" else 0
+                result_files[sink[1]] = list(init) if sink[2] == "a" else []
     places = {"term1": sinks.get(("term", 1), []), "term2": sinks.get(("term", 2), []),
               "capout": sinks.get(("cap", "out"), []), "caperr": sinks.get(("cap", "err"), [])}
     res = {"error": False, "places": places, "files": result_files, "append": append_n}
+    if optional:
+        res["optional"] = optional
     if "C07-F3" in defects:
         places["caperr"] = []       # the stderr pipe of an unthreadable last stage is never read
     if "C07-F5" in defects:
@@ -399,40 +590,64 @@ def expectations(case, defects=frozenset()):
 # ----------------------------------------------------------------------------------------
 # recorded findings: shape predicates (which cases a defect can touch at all)
 
-FINDINGS = ("C07-F1", "C07-F2", "C07-F3", "C07-F4", "C07-F5", "C07-F6", "C07-F7", "C07-F8")
+FINDINGS = ("C07-F1", "C07-F2", "C07-F3", "C07-F4", "C07-F5", "C07-F6", "C07-F7", "C07-F8", "C07-F9", "C07-F10", "C07-F11",
+            "C07-F12", "C07-F13")
 
 
 def _stage_sems(st):
     return [TABLE.get(r["op"], ("?",))[0] for r in st.get("redirs", []) if r.get("raw") is None]
 
 
+def _body_classes(st):
+    """emitter classes of the stage other than an external program's own fds and the alias stream arguments"""
+    return {cls for _s, _l, cls in stage_emits(st, 0, []) if cls not in ("proc", "w")}
+
+
 def applicable(case):
     """Finding ids whose *shape* the case has.  Attribution additionally needs the exact symptom."""
     out = []
     stages = case["stages"]
+    n = len(stages)
     last = stages[-1]
     cap = case["cap"]
     ts = bool(case.get("ts", True))
     ls = _stage_sems(last)
     routed = {"out", "err", "all", "e2o", "o2e", "a2p", "e2p"}
-    if last["kind"] == "thr" and ts and cap in ("uncap", "stdout") and not (set(ls) & routed - ({"o2e"} if cap == "stdout" else set())):
+    kinfo = [_kinfo(s, ts) for s in stages]
+    unthr = [a and not t for a, t in kinfo]         # callable alias that does not run threaded
+    l_alias, l_thr = kinfo[-1]
+    if l_alias and l_thr and cap in ("uncap", "stdout") and not (set(ls) & routed - ({"o2e"} if cap == "stdout" else set())):
         out.append("C07-F1")
     if cap == "stdout" and "o2e" in ls and not (set(ls) & {"err", "all", "e2o", "a2p", "e2p"}):
         out.append("C07-F2")
-    if cap == "object" and (last["kind"] == "unt" or not ts):
+    if cap == "object" and _unthreaded_last(last, ts):
         out.append("C07-F3")
-    if any(s["kind"] == "unt" and "e2o" in _stage_sems(s) for s in stages) and cap in ("bare", "hidden", "uncap"):
+    if any(u and "e2o" in _stage_sems(s) for u, s in zip(unthr, stages)) and cap in ("bare", "hidden", "uncap"):
         out.append("C07-F4")
-    if cap in ("bare", "hidden", "uncap") and ((last["kind"] == "unt" and "o2e" in ls) or
-                                               (last["kind"] == "thr" and cap == "uncap" and "e2o" in ls)):
+    if cap in ("bare", "hidden", "uncap") and ((unthr[-1] and "o2e" in ls) or
+                                               (l_alias and l_thr and cap == "uncap" and "e2o" in ls)):
         out.append("C07-F5")
-    if any(s["kind"] == "unt" and "in" in _stage_sems(s) for s in stages):
+    if any(u and "in" in _stage_sems(s) for u, s in zip(unthr, stages)):
         out.append("C07-F6")
     inj = [r for _i, _k, r in iter_redirs(case) if r.get("tgt") is not None and r["tgt"].get("form") in ("at", "atvar")]
     if inj:
         out.append("C07-F7")
     if any(r.get("prefix") for r in inj):
         out.append("C07-F8")
+    # F9: last stage = threaded alias whose body runs commands, stdout neither redirected nor captured
+    if (l_alias and l_thr and cap in ("bare", "hidden", "uncap") and not (set(ls) & {"out", "all", "o2e", "a2p"})
+            and (_body_classes(last) - PY_CLASSES - {"cn"})):
+        out.append("C07-F9")
+    # F10: a slow threaded alias with stderr to a file, followed by a stage that does not wait for its input
+    if any(s["kind"] == "sl" and i < n - 1 and not _drains(stages[i + 1]) and (set(_stage_sems(s)) & {"err", "all"})
+           for i, s in enumerate(stages)):
+        out.append("C07-F10")
+    if any((glued(r) or (None, ""))[1] != "" for _i, _k, r in iter_redirs(case)):
+        out.append("C07-F11")
+    if any(u and _body_classes(s) for u, s in zip(unthr, stages)):
+        out.append("C07-F12")
+    if any(a and t and "cn" in _body_classes(s) for (a, t), s in zip(kinfo, stages)):
+        out.append("C07-F13")
     return out
 
 
@@ -459,6 +674,61 @@ def _mk_alias(threadable):
 
         tag = unthreadable(tag)
     return tag
+
+
+def _mk_slow():
+    import time
+
+    def slow(args, stdin=None, stdout=None, stderr=None):
+        t = args[0] if args else ""
+        try:
+            if len(args) > 1 and stdin is not None:
+                for line in stdin:
+                    if not line.endswith("\n"):
+                        line += "\n"
+                    stdout.write("I%s:%s" % (t, line))
+            stdout.write("O%s\n" % t)
+            stdout.flush()
+        except (OSError, ValueError):
+            pass                # the reader has gone: keep going, stderr is still owed
+        time.sleep(SLOW_S)
+        stderr.write("E%s\n" % t)
+        stderr.flush()
+        return 0
+
+    return slow
+
+
+def _install_aliases(XSH):
+    """Register the stage commands in the fresh session: the function objects are built once per process (the body
+    aliases are compiled from xonsh source by the real execer), string aliases are re-assigned every time so that
+    Aliases.__setitem__ turns them into ExecAliases itself."""
+    st = _state
+    if st["atag"] is None:
+        st["atag"] = _mk_alias(True)
+        st["utag"] = _mk_alias(False)
+        st["sl"] = _mk_slow()
+        g = {}
+        st["session"].xexec(BODY_SRC, glbs=g)
+        from xonsh.tools import unthreadable
+
+        st["cb"] = g["_c07_body"]
+        st["ub"] = unthreadable(g["_c07_ubody"])
+    XSH.aliases["atag"] = st["atag"]
+    XSH.aliases["utag"] = st["utag"]
+    XSH.aliases["sl"] = st["sl"]
+    XSH.aliases["cb"] = st["cb"]
+    XSH.aliases["cbi"] = st["cb"]
+    XSH.aliases["ub"] = st["ub"]
+    for name, src in EXEC_ALIASES.items():
+        XSH.aliases[name] = src
+    if not st.get("xa_checked"):
+        from xonsh.aliases import ExecAlias
+
+        for name in EXEC_ALIASES:
+            if not isinstance(XSH.aliases._raw.get(name), ExecAlias):
+                raise common.HarnessError("alias %s did not become an ExecAlias: %r" % (name, XSH.aliases._raw.get(name)))
+        st["xa_checked"] = True
 
 
 _FS_IOC_GETFLAGS = 0x80086601
@@ -645,7 +915,7 @@ class _Terminal:
         return out
 
 
-_TAGGED = re.compile(r"^(I\d+:)*(O\d+|E\d+|P\d+[ab])$")
+_TAGGED = re.compile(r"^(I\d+[a-z]*:)*(O\d+[a-z]*|E\d+[a-z]*|P\d+[ab])$")
 
 
 def _lines(text):
@@ -702,11 +972,7 @@ def execute(case):
     XSH = session.load_session(st["scratch"], THREAD_SUBPROCS=bool(case.get("ts", True)), **env)
     os.chdir(cwd)
     XSH.env["PWD"] = cwd
-    if st["atag"] is None:
-        st["atag"] = _mk_alias(True)
-        st["utag"] = _mk_alias(False)
-    XSH.aliases["atag"] = st["atag"]
-    XSH.aliases["utag"] = st["utag"]
+    _install_aliases(XSH)
     XSH.ctx.clear()
     XSH.ctx.update(ctxvars)
     src = render(case)
@@ -818,6 +1084,7 @@ def compare(case, exp, obs):
             probs.append("exception-expected: %s" % exp.get("crash"))
     if exp.get("crash") == "AttributeError" and "'int' object has no attribute 'readable'" not in (obs["msg"] or ""):
         probs.append("unexpected-exception: %s" % (obs["msg"] or obs["exc"]))
+    opt = Counter(exp.get("optional", ()))
     for place in ("term1", "term2", "capout", "caperr"):
         want, got = Counter(exp["places"][place]), Counter(obs["places"][place])
         if exp.get("subset"):
@@ -825,7 +1092,7 @@ def compare(case, exp, obs):
                 probs.append("extra@%s: %r" % (place, sorted((got - want).elements())))
             continue
         if want != got:
-            miss = sorted((want - got).elements())
+            miss = sorted(((want - got) - opt).elements())
             extra = sorted((got - want).elements())
             if miss:
                 probs.append("missing@%s: %r" % (place, miss))
@@ -848,7 +1115,7 @@ def compare(case, exp, obs):
             if Counter(got[ninit:]) - Counter(want[ninit:]):
                 probs.append("extra@file:%s: %r" % (name, sorted((Counter(got[ninit:]) - Counter(want[ninit:])).elements())))
         elif Counter(want[ninit:]) != Counter(got[ninit:]):
-            miss = sorted((Counter(want[ninit:]) - Counter(got[ninit:])).elements())
+            miss = sorted(((Counter(want[ninit:]) - Counter(got[ninit:])) - opt).elements())
             extra = sorted((Counter(got[ninit:]) - Counter(want[ninit:])).elements())
             if miss:
                 probs.append("missing@file:%s: %r" % (name, miss))
@@ -953,13 +1220,36 @@ def case_key(case):
             tuple(s["kind"] for s in case["stages"]))
 
 
+def _pos(i, n):
+    return "only" if n == 1 else "first" if i == 0 else "last" if i == n - 1 else "middle"
+
+
 def case_labels(case):
     labs = ["cap:" + case["cap"], "stages:%d" % len(case["stages"])]
+    n = len(case["stages"])
     for i, st in enumerate(case["stages"]):
         if st.get("redirs"):
-            n = len(case["stages"])
-            pos = "only" if n == 1 else "first" if i == 0 else "last" if i == n - 1 else "middle"
-            labs.append("kind:%s@%s" % (st["kind"], pos))
+            labs.append("kind:%s@%s" % (st["kind"], _pos(i, n)))
+        if st["kind"] in BODY_KINDS:
+            # the new stage kinds are counted wherever they stand, with the way the stage's output is routed
+            labs.append("body:%s@%s" % (st["kind"], _pos(i, n)))
+            sems = set(_stage_sems(st))
+            route = ("file" if sems & {"out", "err", "all"} else "") + ("+merge" if sems & {"e2o", "o2e"} else "") + (
+                "+topipe" if sems & {"a2p", "e2p"} else "")
+            if i < n - 1:
+                route += "+piped"
+            elif case["cap"] in ("stdout", "object"):
+                route += "+captured"
+            labs.append("bodyroute:" + (route.lstrip("+") or "terminal"))
+            for cls in sorted(_body_classes(st)):
+                labs.append("emitter:" + cls)
+        if st.get("envs"):
+            labs.append("deco:env%d@%s" % (min(len(st["envs"]), 2), "alias-body" if _body_classes(st) else st["kind"]))
+            labs.append("deco:env@%s" % _pos(i, n))
+        if st.get("deco"):
+            labs.append("deco:%s@%s" % (st["deco"], "alias-body" if _body_classes(st) else st["kind"]))
+        if st.get("noread"):
+            labs.append("stage:ignores-stdin")
     for _i, _k, r in iter_redirs(case):
         sem = TABLE.get(r["op"])
         labs.append("op:" + ("malformed" if sem is None or r.get("raw") is not None else "/".join(sem)))
@@ -1077,6 +1367,97 @@ def worker_pairs(arg):
     return st
 
 
+# ----------------------------------------------------------------------------------------
+# part 3: alias bodies and stage decorations (product)
+
+BODY_VARIANTS = [("xand", None), ("xseq", None), ("xpipe", None), ("xali", None), ("xnest", None), ("cb", "c"), ("cb", "p"),
+                 ("cb", "wpc"), ("cb", "hx"), ("cb", "nm"), ("ub", "w"), ("ub", "pc"), ("sl", None)]
+BODY_ROUTES = [(), ("out/w",), ("out/a",), ("err/w",), ("err/a",), ("all/w",), ("all/a",), ("e2o",), ("o2e",), ("a2p",), ("e2p",),
+               ("out/w", "err/w"), ("out/a", "e2p"), ("out/w", "e2o"), ("err/a", "o2e"), ("in",), ("in", "out/w")]
+BODY_DECOS = [{}, {"envs": 1}, {"envs": 2}, {"deco": "@thread"}, {"deco": "@unthread"}, {"envs": 1, "deco": "@thread"},
+              {"envs": 1, "deco": "@error_ignore"}]
+# (position, kind of the neighbouring stages); "noread" = an external program that ignores its stdin (`... | true`)
+BODY_POS = [("only", None), ("first", "ext"), ("first", "thr"), ("first", "noread"), ("middle", "ext"), ("last", "ext"), ("last", "thr")]
+ENV_VALUES = ["'1'", '"b"', "'x y'"]
+
+
+def _cls_sem(cls):
+    return tuple(cls.split("/"))
+
+
+def body_cells():
+    for variant in BODY_VARIANTS:
+        for route in BODY_ROUTES:
+            for deco in range(len(BODY_DECOS)):
+                for pos in BODY_POS:
+                    for cap in CAPS:
+                        yield (variant, route, deco, pos, cap)
+
+
+def body_case(cell):
+    (kind, em), route, deco, (pos, nbk), cap = cell
+    hv = int(common.h64(("c07b", cell)), 16)
+    redirs = []
+    for k, cls in enumerate(route):
+        sem = _cls_sem(cls)
+        sps = sorted(SEMGROUPS[sem])
+        red = {"op": sps[(hv >> (8 * k)) % len(sps)]}
+        if sem not in NO_TARGET:
+            state = "existing" if sem == ("in",) or sem[1] == "a" or (hv >> (4 + k)) & 1 else "missing"
+            red["tgt"] = {"name": "t%d.txt" % k, "state": state, "form": "plain"}
+            red["sp"] = " "
+        redirs.append(red)
+    x = {"kind": kind, "redirs": redirs}
+    if em:
+        x["em"] = em
+    d = BODY_DECOS[deco]
+    if d.get("envs"):
+        x["envs"] = [["CV%d" % j, ENV_VALUES[(hv >> (16 + 2 * j)) % len(ENV_VALUES)]] for j in range(d["envs"])]
+    if d.get("deco"):
+        x["deco"] = d["deco"]
+
+    def nb(j):
+        st = {"kind": "ext" if nbk == "noread" else nbk, "redirs": []}
+        if nbk == "noread":
+            st["noread"] = True
+        if (hv >> (24 + j)) & 3 == 0:
+            st["envs"] = [["NV%d" % j, "'1'"]]      # the neighbour carries an env prefix, too
+        return st
+
+    stages = {"only": lambda: [x], "first": lambda: [x, nb(1)], "middle": lambda: [nb(0), x, nb(2)], "last": lambda: [nb(0), x]}[pos]()
+    return {"cap": cap, "ts": True, "stages": stages}
+
+
+def worker_bodies(arg):
+    shard, nshards, seed, permille, scratch = arg
+    _setup(scratch)
+    st = Stats()
+    try:
+        for ci, cell in enumerate(body_cells()):
+            if ci % nshards != shard:
+                continue
+            if permille < 1000 and int(common.h64(("c07b", seed, ci)), 16) % 1000 >= permille:
+                continue
+            if _state.get("hangs", 0) >= MAX_HANGS:
+                st.inconclusive += 1
+                continue
+            case = body_case(cell)
+            f, labels, obs = check_case(case)
+            if "undefined" in labels:
+                st.hist["bodies:undefined-by-docs"] += 1
+                continue
+            st.case(case_key(case), True, ["bodies"] + labels + case_labels(case), sample=case, max_per_label=1)
+            if f is not None:
+                st.fail(f)
+                if f.finding:
+                    st.excluded_known[f.finding] += 1
+    finally:
+        _clear_immutable()
+    st.failures = _dedupe(st.failures)
+    _flush_flaky(st)
+    return st
+
+
 def _norm_obs(obs):
     return {"exc": obs["exc"], "places": {k: sorted(v) for k, v in obs["places"].items()},
             "files": {k: (None if v is None else sorted(v)) for k, v in obs["files"].items()}}
@@ -1159,6 +1540,9 @@ def _dedupe(failures):
 
 
 TRICKY_NAMES = ["p", "out", "e", "2", "o", "err", "1", "all", "a"]      # target names that are also operator parts
+# target names that *begin* with an operator part; written without a blank after a named operator they meet the
+# tokenizer's merge / pipe alternatives (`2>out.txt`, `a>path`, `1>err.log`, `e>pfile`)
+GLUE_NAMES = ["out.txt", "path", "err.log", "pfile", "1.txt", "e.txt", "o.txt", "2x", "outfile"]
 
 
 def case_strategy(avoid=frozenset()):
@@ -1177,10 +1561,36 @@ def case_strategy(avoid=frozenset()):
     def cases(draw):
         n = draw(hs.sampled_from([1, 1, 2, 2, 3]))
         ts = draw(hs.sampled_from([True, True, True, False]))
-        if n == 1:
-            kinds = [draw(hs.sampled_from(["ext", "thr", "unt"] if ts else ["ext", "unt"]))]
-        else:
-            kinds = [draw(hs.sampled_from(["ext", "thr"] if ts else ["ext"])) for _ in range(n)]
+
+        def draw_stage(i):
+            """kind (+ emitters) and decorations of stage i"""
+            pool = ["ext"] * 4 + ["thr"] * 3 + ["body"] * 4 + (["unt", "ub"] if n == 1 else [])
+            kind = draw(hs.sampled_from(pool))
+            if kind == "body":
+                kind = draw(hs.sampled_from(["cb", "cb", "cb", "cb", "xand", "xand", "xseq", "xpipe", "xali", "xnest", "ub", "sl"]))
+            st = {"kind": kind}
+            if kind in ("cb", "ub"):
+                st["em"] = "".join(draw(hs.lists(hs.sampled_from(list(EMITTERS)), min_size=1, max_size=3, unique=True)))
+            ne = draw(hs.sampled_from([0, 0, 0, 1, 1, 2]))
+            if ne:
+                st["envs"] = [["CV%d" % j, draw(hs.sampled_from(ENV_VALUES))] for j in range(ne)]
+            deco = draw(hs.sampled_from([None] * 6 + list(DECOS)))
+            if kind != "ext" and n > 1:
+                # an alias that does not run threaded is an error in a pipeline: keep that to a quarter of the draws
+                alias, threaded = _kinfo(dict(st, deco=deco), ts)
+                if not threaded and draw(hs.integers(0, 3)) != 0:
+                    deco = "@thread" if (not ts or kind in UNTHREADABLE_KINDS) else None
+            if deco:
+                st["deco"] = deco
+            if i > 0 and kind in ("ext", "thr") and draw(hs.integers(0, 9)) == 0:
+                st["noread"] = True         # `... | true`: a stage that ignores its stdin
+            return st
+
+        protos = [draw_stage(i) for i in range(n)]
+        for i in range(1, n):
+            if protos[i - 1]["kind"] == "sl" and protos[i]["kind"] in ("ext", "thr") and draw(hs.booleans()):
+                protos[i]["noread"] = True
+        kinds = [p_["kind"] for p_ in protos]
         compatible = draw(hs.sampled_from([True, True, False]))
         stages = []
         counter = [0]
@@ -1208,11 +1618,14 @@ def case_strategy(avoid=frozenset()):
                 form = draw(hs.sampled_from(["plain", "plain", "squote", "dquote", "at", "atvar", "var", "dvar"]))
                 sp = draw(hs.sampled_from([" ", " ", " ", "  ", "\t", ""]))
                 base = "t%d.txt" % k
-                style = draw(hs.sampled_from(["std", "std", "std", "blank", "tricky"]))
+                style = draw(hs.sampled_from(["std", "std", "std", "blank", "tricky", "glued"]))
                 if style == "blank" and form in ("squote", "dquote", "at", "atvar", "dvar"):
                     base = "t %d.txt" % k       # a blank is only legal in a quoted / injected target
                 elif style == "tricky" and sp != "" and k < len(TRICKY_NAMES):
                     base = TRICKY_NAMES[k]
+                elif style == "glued" and k < len(GLUE_NAMES) and cls != "in":
+                    base, form = GLUE_NAMES[k], "plain"
+                    sp = draw(hs.sampled_from(["", "", " "]))
                 if state == "nodir":
                     base = "nd%d/%s" % (k, base)
                 if op == "<" and draw(hs.sampled_from([False, False, True])):
@@ -1256,7 +1669,7 @@ def case_strategy(avoid=frozenset()):
                 nr = draw(hs.sampled_from([1, 1, 2, 2, 3]))
                 for _ in range(nr):
                     redirs.append(mk(draw(hs.sampled_from(free_classes)), False))
-            stages.append({"kind": kinds[i], "redirs": redirs})
+            stages.append(dict(protos[i], redirs=redirs))
         if n == 1 and not stages[0]["redirs"]:
             stages[0]["redirs"].append(mk(draw(hs.sampled_from(["e2o", "o2e", "out/w", "err/a"])), True))
         # redirect indices follow the order of appearance in the rendered line
@@ -1267,7 +1680,7 @@ def case_strategy(avoid=frozenset()):
                     t = r["tgt"]
                     nd = t["name"].startswith("nd")
                     base = t["name"].split("/", 1)[1] if nd else t["name"]
-                    if base not in TRICKY_NAMES:
+                    if base not in TRICKY_NAMES and base not in GLUE_NAMES:
                         base = ("t %d.txt" if " " in base else "t%d.txt") % k
                     t["name"] = ("nd%d/" % k if nd else "") + base
                 k += 1
@@ -1447,7 +1860,13 @@ def main(run):
         thorough = run.tier == "thorough"
         nw = 16 if thorough else 12
         permille = 1000 if thorough else 500
-        common.pool_map(run, __name__, "worker_product", [(w, nw, run.seed, permille, run.scratch) for w in range(nw)], procs=nw)
+        procs = max(1, min(nw, int(os.environ.get("VERIF_PROCS") or nw)))      # shards stay the same, only the parallelism changes
+        # part 3 first: alias bodies x decorations x routing x position x capture form
+        bpm = 1000 if thorough else 55
+        common.pool_map(run, __name__, "worker_bodies", [(w, nw, run.seed, bpm, run.scratch) for w in range(nw)], procs=procs)
+        run.extra["bodies_product"] = {"cases": sum(1 for _ in body_cells()), "sampled_permille": bpm,
+                                       "variants": ["%s%s" % (k, ":" + e if e else "") for k, e in BODY_VARIANTS]}
+        common.pool_map(run, __name__, "worker_product", [(w, nw, run.seed, permille, run.scratch) for w in range(nw)], procs=procs)
         run.extra["product"] = {"groups": ngroups, "cases": ncases, "sampled_permille_of_groups": permille}
         if thorough:
             run.exhaustive = True
@@ -1456,13 +1875,13 @@ def main(run):
                                                 "ordered pair of the 11 operator classes on one stage x 9 (kind, position) x 5 capture "
                                                 "forms with hash-picked spellings" % (ncases, len(TABLE)))
         ppm = 1000 if thorough else 250
-        common.pool_map(run, __name__, "worker_pairs", [(w, nw, run.seed, ppm, run.scratch) for w in range(nw)], procs=nw)
+        common.pool_map(run, __name__, "worker_pairs", [(w, nw, run.seed, ppm, run.scratch) for w in range(nw)], procs=procs)
         run.extra["pairs_product"] = {"cases": sum(1 for _ in pair_cases()), "sampled_permille": ppm}
         common.pool_map(run, __name__, "worker_malformed", [run.scratch], procs=1)
         per = run.n(500, 28000)
         ngw = 12 if not thorough else 16
         common.pool_map(run, __name__, "worker_generated",
-                        [(common.worker_seed(run.seed, 50 + w), per, run.scratch) for w in range(ngw)], procs=ngw)
+                        [(common.worker_seed(run.seed, 50 + w), per, run.scratch) for w in range(ngw)], procs=min(ngw, procs))
     finally:
         _clear_immutable()
         clear_tree_flags(run.scratch)
